@@ -199,7 +199,7 @@ def direct_oracles(case, plines, widths):
             if len(a) > 7 and a[7] == 'STALE':
                 # `reset_accepting_state()` precedes every action call and `backtrack()` takes the saved match:
                 # an action that runs while a match is still saved means an abandoned candidate can resurface later
-                for pr in ('C01', 'C03', 'C09', 'C10'):
+                for pr in ('C01', 'C03', 'C07', 'C08', 'C09', 'C10'):
                     bad.setdefault(pr, 'a semantic action (rule %s) ran while an earlier candidate match was still saved' % a[1])
             if not (loc_ok(a[2]) and loc_ok(a[3])) or byte_of(a[2]) > byte_of(a[3]):
                 bad['C06'] = 'action view location %s..%s is not the scan location of that byte' % (a[2], a[3])
@@ -353,6 +353,8 @@ def make_cases(d, dd, rng, builtins, p, fixed_inputs, fixed_scripts):
     n_before_special = len(inputs)
     for sp in gen_defs.UNICODE_POOL:
         inputs.append([alpha[0], sp, alpha[0], alpha[-1], sp, sp, 0x7A])
+    for sp in gen_defs.UNICODE_POOL:
+        inputs.append([sp, alpha[0], alpha[-1], sp])      # the special character first and last (start/end-of-input handling)
     inputs.append([alpha[0]] * 200)
     inputs.append([0x7A] * 50)
     inputs.append([rng.choice(alpha + [0x7A, 10, 9, 0x4E2D, 0x301]) for _ in range(p['long_input'] if nm.endswith('0') else 300)])
@@ -362,7 +364,7 @@ def make_cases(d, dd, rng, builtins, p, fixed_inputs, fixed_scripts):
         if k not in seen:
             seen.add(k)
             uniq.append(list(w))
-    special = set(tuple(w) for w in inputs[n_before_special:n_before_special + len(gen_defs.UNICODE_POOL)])
+    special = set(tuple(w) for w in inputs[n_before_special:n_before_special + 2 * len(gen_defs.UNICODE_POOL)])
     inputs = uniq
     scripts = list(fixed_scripts.get(nm) or []) or gen_defs.gen_scripts(rng, d)
     cases = []
